@@ -1,9 +1,37 @@
 package vlib
 
-import "strings"
+import (
+	"fmt"
+	"strings"
+)
 
 func splitLines(s string) []string { return strings.Split(s, "\n") }
 func trimSpace(s string) string    { return strings.TrimSpace(s) }
 func containsRepoFunc(l string) bool {
 	return strings.HasPrefix(l, "github.com/rogpeppe/go-internal/")
+}
+
+// Guarded returns a private copy of b that has spare capacity filled with guard
+// bytes, and a function that reports (as a non-empty description) whether the
+// copy's bytes or the memory behind its end have changed since: a function
+// that only reads its []byte argument must leave both alone.
+func Guarded(b []byte) (arg []byte, changed func() string) {
+	const guard = 8
+	buf := make([]byte, len(b)+guard)
+	copy(buf, b)
+	for i := len(b); i < len(buf); i++ {
+		buf[i] = 0xA5
+	}
+	n := len(b)
+	return buf[:n], func() string {
+		if string(buf[:n]) != string(b) {
+			return "the argument's bytes were modified: now " + Q(buf[:n])
+		}
+		for i := n; i < len(buf); i++ {
+			if buf[i] != 0xA5 {
+				return fmt.Sprintf("byte %d behind the end of the argument (spare capacity, owned by the caller) was overwritten with %#x", i-n, buf[i])
+			}
+		}
+		return ""
+	}
 }
